@@ -21,7 +21,6 @@ inductive MState where
 structure Scratch where
   arg : Fid → Nat := fun _ => 0                   -- duration of the pending timed call
   pendW : Fid → Option Fid := fun _ => none       -- waiter picked by the NotifyOne of the pending unlock
-  coin : Fid → Bool := fun _ => false             -- SharedMutex::unlock drew 0
   shared : Fid → Bool := fun _ => false           -- the pending acquisition is lock_shared
   lastTmo : Fid → Bool := fun _ => false          -- the cv wait that just re-locked had timed out
   joining : Fid → Option Fid := fun _ => none     -- the harness uses `join` as a barrier inside a lock scenario
@@ -43,18 +42,17 @@ def atT (ts : List String) : Nat := (kv ts "@").getD 0
 
 def initD (hdr : List String) : Option D := do
   let prim ← hdrGet hdr "prim"
-  let fixed := hdrGet hdr "fixed" == some "1"   -- traces of a library with the proposed repairs applied
   let nf := (hdr.filter fun t => (parseFid ((t.splitOn "=").headD "")).isSome ∧ t.contains '=').length
   let m ← match prim with
-    | "mutex" => some (MState.mx (Mx.init false fixed nf))
-    | "cv" => some (MState.mx (Mx.init false fixed nf))
-    | "timed" => some (MState.mx (Mx.init true fixed nf))
-    | "rec" => some (MState.rm (Rm.init false fixed fixed nf))
-    | "rect" => some (MState.rm (Rm.init true fixed fixed nf))
-    | "shared" => some (MState.sm (Sm.init false fixed nf))
-    | "sharedt" => some (MState.sm (Sm.init true fixed nf))
-    | "thread" => some (MState.th (Th.init fixed nf))
-    | "tls" => some (MState.th (Th.init fixed nf))
+    | "mutex" => some (MState.mx (Mx.init false nf))
+    | "cv" => some (MState.mx (Mx.init false nf))
+    | "timed" => some (MState.mx (Mx.init true nf))
+    | "rec" => some (MState.rm (Rm.init false nf))
+    | "rect" => some (MState.rm (Rm.init true nf))
+    | "shared" => some (MState.sm (Sm.init false nf))
+    | "sharedt" => some (MState.sm (Sm.init true nf))
+    | "thread" => some (MState.th (Th.init nf))
+    | "tls" => some (MState.th (Th.init nf))
     | _ => none
   pure { m := m, nf := nf }
 
@@ -74,14 +72,13 @@ def mxRule (s : Mx.State) : Mx.Label → String
   | .tryLock _ ok => if ok then "mx.tryOk" else "mx.tryFail"
   | .unlock _ w => if w.isSome then "mx.unlock.wake" else "mx.unlock.none"
   | .tlfAcq f => (match s.pc f with
-      | .tlfWoken => if s.occupied then "mx.tlfWokenAcq.barge" else "mx.tlfWokenAcq"
       | .tlfLocking _ => "mx.tlfRecheckAcq"
       | _ => "mx.tlfFast")
-  | .tlfPark _ _ d j => if d + j = 0 then "mx.tlfPark.d8" else "mx.tlfPark"
+  | .tlfPark _ _ d j => if d + j = 0 then "mx.tlfPark.now" else "mx.tlfPark"
   | .tlfTimeout _ _ => "mx.tlfTimeout"
   | .tlfRepark _ _ => "mx.tlfRepark"
   | .cvWait _ _ => "mx.cvWait"
-  | .cvWaitFor _ _ _ d j => if d + j = 0 then "mx.cvWaitFor.d8" else "mx.cvWaitFor"
+  | .cvWaitFor _ _ _ d j => if d + j = 0 then "mx.cvWaitFor.now" else "mx.cvWaitFor"
   | .cvTimeout _ _ => "mx.cvTimeout"
   | .notifyOne _ w => if w.isSome then "mx.notifyOne.wake" else "mx.notifyOne.none"
   | .notifyAll _ => "mx.notifyAll"
@@ -144,13 +141,12 @@ def mxAct (s : Mx.State) (x : Scratch) (ts : List String) : Act Mx.Label :=
 
 def rmRule (s : Rm.State) : Rm.Label → String
   | .lockAcq f => (match s.pc f with
-      | .woken => "rm.lockWokenAcq"
       | .locking => "rm.lockRecheckAcq"
       | _ => if s.count = 0 then "rm.lockFast" else "rm.lockFast.again")
   | .lockPark f => (match s.pc f with | .locking => "rm.lockRepark" | _ => "rm.lockPark")
   | .tryLock _ ok => if ok then (if s.count = 0 then "rm.tryOk" else "rm.tryOk.again") else "rm.tryFail"
   | .unlock _ w => if s.count = 1 then (if w.isSome then "rm.unlock.last.wake" else "rm.unlock.last") else "rm.unlock.inner"
-  | .tlfAcq f => (match s.pc f with | .tWoken => "rm.tlfWokenAcq" | .tLocking _ => "rm.tlfRecheckAcq" | _ => "rm.tlfFast")
+  | .tlfAcq f => (match s.pc f with | .tLocking _ => "rm.tlfRecheckAcq" | _ => "rm.tlfFast")
   | .tlfRepark _ _ => "rm.tlfRepark"
   | .tlfPark _ _ _ _ => "rm.tlfPark"
   | .tlfTimeout _ _ => "rm.tlfTimeout"
@@ -171,10 +167,8 @@ def rmAct (s : Rm.State) (x : Scratch) (ts : List String) : Act Rm.Label :=
               (match s.pc f with
                | .tLocking _ => .step (.tlfRepark f ((kv ts "j=").getD 0)) x
                | _ => .step (.tlfPark f (atT ts) (x.arg f) ((kv ts "j=").getD 0)) x)
-          | "wake" =>
-              if res = "1" then .step (.tlfTimeout f (atT ts)) x
-              else if s.patch then .skip else .reject   -- D4: in the code as it is nobody is ever notified
-          | "notify_one" => if s.patch then .note { x with pendW := upd x.pendW f (pickAt s.rq ts res) } else .reject
+          | "wake" => if res = "1" then .step (.tlfTimeout f (atT ts)) x else .skip
+          | "notify_one" => .note { x with pendW := upd x.pendW f (pickAt s.rq ts res) }
           | _ => .reject
         else .reject
   | fs :: "E" :: rest =>
@@ -199,31 +193,26 @@ def rmAct (s : Rm.State) (x : Scratch) (ts : List String) : Act Rm.Label :=
 
 def smRule (s : Sm.State) : Sm.Label → String
   | .xAcq f => (match s.pc f with
-      | .xWoken => if s.occ then "sm.xWokenAcq.barge" else "sm.xWokenAcq"
       | .xLocking => "sm.xRecheckAcq"
       | _ => "sm.xFast")
   | .xPark f => (match s.pc f with | .xLocking => "sm.xRepark" | _ => "sm.xPark")
   | .tryX _ ok => if ok then "sm.tryXOk" else "sm.tryXFail"
-  | .unlock _ coin w =>
-      if s.fixed then (if w.isSome then "sm.unlockF.wake" else "sm.unlockF.none")
-      else if Sm.wakesShared s coin then "sm.unlock.shared" else if w.isSome then "sm.unlock.wake" else "sm.unlock.none"
+  | .unlock _ w =>
+      (if s.sq.isEmpty then "sm.unlock" else "sm.unlock.readers") ++ (if w.isSome then ".writer" else "")
   | .sAcq f => (match s.pc f with
-      | .sWoken => if s.occ && s.excl then "sm.sWokenAcq.barge" else "sm.sWokenAcq"
       | .sLocking => "sm.sRecheckAcq"
       | _ => "sm.sFast")
-  | .sPark f => (match s.pc f with | .sLocking => "sm.sRepark" | _ => if s.fixed then "sm.sParkF" else "sm.sPark")
+  | .sPark f => (match s.pc f with | .sLocking => "sm.sRepark" | _ => "sm.sPark")
   | .tryS _ ok => if ok then "sm.trySOk" else "sm.trySFail"
   | .unlockS _ w => if s.cnt - 1 = 0 then (if w.isSome then "sm.unlockS.wake" else "sm.unlockS.none") else "sm.unlockS.inner"
   | .txAcq f => (match s.pc f with
-      | .txWoken => if s.occ then "sm.txWokenAcq.barge" else "sm.txWokenAcq"
       | .txLocking _ => "sm.txRecheckAcq"
-      | _ => if s.fixed then "sm.txFastF" else "sm.txFast")
+      | _ => "sm.txFast")
   | .txRepark _ _ => "sm.txRepark"
   | .tsRepark _ _ => "sm.tsRepark"
   | .txPark _ _ _ _ => "sm.txPark"
   | .txTimeout _ _ => "sm.txTimeout"
   | .tsAcq f => (match s.pc f with
-      | .tsWoken => if s.occ && s.excl then "sm.tsWokenAcq.barge" else "sm.tsWokenAcq"
       | .tsLocking _ => "sm.tsRecheckAcq"
       | _ => "sm.tsFast")
   | .tsPark _ _ _ _ => "sm.tsPark"
@@ -240,9 +229,7 @@ def smAct (s : Sm.State) (x : Scratch) (ts : List String) : Act Sm.Label :=
       | some f =>
         if obj = "eq" then
           match op with
-          | "park" =>
-              if x.shared f then (if s.fixed then .reject else .step (.sPark f) x)   -- D7: readers on the exclusive queue
-              else .step (.xPark f) x
+          | "park" => if x.shared f then .reject else .step (.xPark f) x   -- readers never wait on the exclusive queue
           | "park_timed" =>
               (match s.pc f with
                | .txLocking _ => .step (.txRepark f ((kv ts "j=").getD 0)) x
@@ -252,7 +239,7 @@ def smAct (s : Sm.State) (x : Scratch) (ts : List String) : Act Sm.Label :=
           | _ => .reject
         else if obj = "sq" then
           match op with
-          | "park" => if s.fixed ∧ x.shared f then .step (.sPark f) x else .reject
+          | "park" => if x.shared f then .step (.sPark f) x else .reject
           | "park_timed" =>
               (match s.pc f with
                | .tsLocking _ => .step (.tsRepark f ((kv ts "j=").getD 0)) x
@@ -270,9 +257,9 @@ def smAct (s : Sm.State) (x : Scratch) (ts : List String) : Act Sm.Label :=
         | "call" :: "lock_shared" :: _ => .note { x with shared := upd x.shared f true }
         | "call" :: "join" :: k :: _ => .note { x with joining := upd x.joining f k.toNat? }
         | "ret" :: "join" :: _ => .note { x with joining := upd x.joining f none }
-        | "call" :: "unlock" :: _ => .note { x with pendW := upd x.pendW f none, coin := upd x.coin f false }
+        | "call" :: "unlock" :: _ => .note { x with pendW := upd x.pendW f none }
         | "call" :: "unlock_shared" :: _ => .note { x with pendW := upd x.pendW f none }
-        | "coin" :: c :: _ => .note { x with coin := upd x.coin f (c = "0") }
+        | "coin" :: _ => .reject   -- `SharedMutex::unlock` no longer draws a random number
         | "call" :: "try_lock_for" :: d :: _ => .note { x with arg := upd x.arg f (d.toNat?.getD 0) }
         | "call" :: "try_lock_shared_for" :: d :: _ => .note { x with arg := upd x.arg f (d.toNat?.getD 0) }
         | "call" :: "sleep" :: d :: _ => .step (.sleepStart f (atT ts) (d.toNat?.getD 0)) x
@@ -281,7 +268,7 @@ def smAct (s : Sm.State) (x : Scratch) (ts : List String) : Act Sm.Label :=
         | "ret" :: "lock_shared" :: _ => .step (.sAcq f) x
         | "ret" :: "try_lock" :: r :: _ => .step (.tryX f (r = "1")) x
         | "ret" :: "try_lock_shared" :: r :: _ => .step (.tryS f (r = "1")) x
-        | "ret" :: "unlock" :: _ => .step (.unlock f (x.coin f) (x.pendW f)) x
+        | "ret" :: "unlock" :: _ => .step (.unlock f (x.pendW f)) x
         | "ret" :: "unlock_shared" :: _ => .step (.unlockS f (x.pendW f)) x
         | "ret" :: "try_lock_for" :: "1" :: _ => .step (.txAcq f) x
         | "ret" :: "try_lock_for" :: "0" :: _ => .check (s.pc f = .idle)
@@ -386,9 +373,9 @@ def finalD (d : D) : Option String :=
   if d.x.deadlock then
     let stuck : Bool := match d.m with
       | .mx s => fs.all fun f => match s.pc f with | .done => true | .lockParked _ => s.occupied | .cvParked => true | _ => false
-      | .rm s => fs.all fun f => match s.pc f with | .done => true | .parked => true | _ => false
+      | .rm s => fs.all fun f => match s.pc f with | .done => true | .parked => s.count != 0 | _ => false
       | .sm s => fs.all fun f => match s.pc f with
-          | .done => true | .xParked => true | .sParked => true
+          | .done => true | .xParked => s.occ | .sParked => s.occ && s.excl
           | .idle => (match d.x.joining f with | some k => s.pc k != .done | none => false)
           | _ => false
       | .th s => fs.all fun f => match s.pc f with | .done => true | .joining k => !s.fin k | _ => false
@@ -404,9 +391,9 @@ def finalD (d : D) : Option String :=
 def showD (d : D) : String :=
   let fs := fibers d.nf
   match d.m with
-  | .mx s => s!"mx pc={reprStr (fs.map s.pc)} occupied={s.occupied} mq={s.mq} cq={s.cq} now={s.now} holders={s.holders} transit={s.transit} barge={s.barge}"
+  | .mx s => s!"mx pc={reprStr (fs.map s.pc)} occupied={s.occupied} mq={s.mq} cq={s.cq} now={s.now} holders={s.holders} transit={s.transit}"
   | .rm s => s!"rm pc={reprStr (fs.map s.pc)} owner={s.owner} count={s.count} rq={s.rq} now={s.now} holders={s.holders}"
-  | .sm s => s!"sm pc={reprStr (fs.map s.pc)} occ={s.occ} excl={s.excl} cnt={s.cnt} sq={s.sq} eq={s.eq} now={s.now} xh={s.xh} sh={s.sh} d5={s.d5} d6={s.d6}"
+  | .sm s => s!"sm pc={reprStr (fs.map s.pc)} occ={s.occ} excl={s.excl} cnt={s.cnt} sq={s.sq} eq={s.eq} now={s.now} xh={s.xh} sh={s.sh} transit={s.transit}"
   | .th s => s!"th pc={reprStr (fs.map s.pc)} fin={fs.map s.fin} slot0={fs.map s.slot0} slot1={fs.map s.slot1} def0={s.def0} def1={s.def1} now={s.now}"
 
 def model : TraceModel :=
